@@ -5,6 +5,7 @@ C12 driver: the model (`Lex`/`Parse`/`Write`) on the line protocol of the Rust h
   read <hex>         -> ok <n> <datum>... | err <kind> <s> <e>
   write <datum>      -> text=<hex>   (or `unmodelled` when the datum contains an inexact number)
   roundtrip <datum>  -> text=<hex> back=<ok n datum.. | err ..> equal=<true|false>
+  printrt <datum>    -> the same for `(print d)` (text `'d`; equal = the datum read back is `(quote d)`)
   wstable            -> the code point ranges on which the model's `isWs` holds
 Payload text is hex-encoded UTF-8.  Datum notation as in the harness:
   i<dec> | r<n>/<d> | t | f | c<hex code point> | s<hex utf8> | y<hex utf8> | F.. (inexact)
@@ -267,6 +268,24 @@ def doDatum (cs : List Char) (round : Bool) : String :=
         s!"text={hexOfText text} back={(showRead back).replace " " "_"} equal={eq}"
   | _ => "bad datum"
 
+/-- `printrt <datum>`: the model of `(print d)` and what the model reader makes of that text -/
+def doPrint (cs : List Char) : String :=
+  match buildDatum (splitBlank cs) with
+  | some (d, []) =>
+    if hasFloat d then "unmodelled"
+    else
+      let text := print d
+      let back := read text
+      let eq := match back with
+        | .ok [.list [.sym q, b]] => q == t!"quote" && datumBeq d b
+        | .ok [b] =>
+          (match d with
+            | .sym _ | .list _ | .pair _ _ => false
+            | _ => datumBeq d b)
+        | _ => false
+      s!"text={hexOfText text} back={(showRead back).replace " " "_"} equal={eq}"
+  | _ => "bad datum"
+
 def wsTable : String := Id.run do
   let mut out := ""
   let mut start : Option Nat := none
@@ -291,6 +310,7 @@ def handle (line : String) : String :=
     | some src => if opS == "lex" then doLex src else showRead (read src)
   else if opS == "write" then doDatum arg false
   else if opS == "roundtrip" then doDatum arg true
+  else if opS == "printrt" then doPrint arg
   else "bad op"
 
 partial def loop (stdin : IO.FS.Stream) (stdout : IO.FS.Stream) : IO Unit := do
